@@ -185,7 +185,8 @@ def coupling_work(chunk):
 
 REUSE_CALLS = [(0.0, 'central', 1, 2), (1e4, 'central', 1, 2), (1.0, 'forward', 3, 4),
                (-3.7, 'complex', 2, 2), (1.0, 'complex', 1, 2), ((2.0, -50.0), 'backward', 2, 1),
-               (1.0, 'multicomplex', 1, 2), ((3000.0, 0.5), 'backward', 2, 1), ((0.0, 1e4), 'central', 1, 2)]
+               (1.0, 'multicomplex', 1, 2), ((3000.0, 0.5), 'backward', 2, 1), ((0.0, 1e4), 'central', 1, 2),
+               (1.0, 'complex', 1, 4), (0.0, 'central', 1, 6)]      # same (method, n), another order
 REUSE_GENS = [('Min', {}), ('Max', {}), ('Min', {'num_extrap': 4}), ('Max', {'num_steps': None}),
               ('Min', {'base_step': 0.25}), ('C', {}), ('C', {'path': 'spiral'})]
 
